@@ -465,10 +465,14 @@ impl<'a> Gen<'a> {
     }
 
     fn trap(&mut self) -> R {
-        if self.hooked_trap.is_empty() {
+        // one trap in six is chosen whatever hooks exist: a trap nobody registered a hook for fails its step, and
+        // the hooks registered for the *other* trap mnemonics have nothing to do with it
+        let any = self.rng.chance(1, 6);
+        if self.hooked_trap.is_empty() && !any {
             return self.a.nop();
         }
-        match *self.rng.pick(&self.hooked_trap) {
+        let all = ["Syscall", "Int3", "Int"];
+        match if any { *self.rng.pick(&all) } else { *self.rng.pick(&self.hooked_trap) } {
             "Syscall" => {
                 if self.rng.chance(1, 2) {
                     // never 60 (exit) by accident: that is a separate ending
